@@ -5,8 +5,9 @@
 // The simulator interleaves announcements, unsolicited deliveries, getdata answers (honest, malleated, notfound, silence),
 // disconnects, clock steps past the request timeout, blocks and reorgs (they reset the reject filters). A TWIN node (a bare
 // SimNode that gets the same blocks and only the genuine transactions) decides what "valid" means at every moment.
-// After the last fault a fresh honest wtxid-relay peer announces the genuine transactions: the node has to ask for them
-// within the tracker's delay bound and has to accept them iff the twin does.
+// After the last fault a fresh honest wtxid-relay peer announces the genuine transactions (all of them, or only the deepest
+// child so that the ancestors have to be fetched by txid): the node has to ask for them within the tracker's delay bound
+// and has to accept them iff the twin does.
 #include "../core/sim.h"
 #include "../nodesim/chainsim.h"
 #include "../nodesim/mempoolsim.h"
@@ -159,6 +160,7 @@ struct Sim {
         bool copy_since_reset{false};
         bool delivered_genuine{false};
         int req_epilogue{0};                 // getdata entries naming it seen after the last fault
+        bool delivered_epilogue{false};      // the fresh honest peer delivered it after the last fault
         int req_total{0};
     };
     std::vector<Genuine> G;
@@ -166,9 +168,9 @@ struct Sim {
     struct PState { std::deque<Open> open; };
     std::vector<PState> ps;
     bool epilogue{false};
+    int honest_idx{-1};
     std::vector<char> stripped_orphan_at_epilogue; //!< per genuine tx: a witness-stripped copy of it was in the orphanage when the honest phase began
     int variants_processed{0};
-    int64_t last_pending_request_clock{-1};
 
     explicit Sim(Ctx& c) : ctx(c), ms(c, MempoolSimConfig{.check_consistency = false}) {}
 
@@ -240,7 +242,6 @@ struct Sim {
                     ctx.probe("getdata_copy_by_wtxid");
                     ctx.evf("  node -> peer#%d getdata wtxid of copy:%s G%d", p.idx, kVName[kind], j);
                 }
-                last_pending_request_clock = ms.cs.now;
             }
         }
         p.inbox.clear();
@@ -356,6 +357,8 @@ struct Sim {
         }
     }
 
+    /** Honest phase: the fresh peer has every genuine transaction and serves it; the old peers no longer misbehave, they simply
+     *  do not have anything (immediate notfound), so that a request parked with one of them cannot outlast the delay bound. */
     void AnswerHonestly(SimPeer& p, const char* how)
     {
         std::deque<Open> open;
@@ -364,11 +367,12 @@ struct Sim {
             if (p.finalized) break;
             int j, kind;
             if (!Lookup(o.inv.hash, j, kind)) continue;
-            if (kind < 0) DeliverGenuine(p, j, how);
+            if (kind < 0 && p.idx == honest_idx) { G[j].delivered_epilogue = true; DeliverGenuine(p, j, how); }
             else {
                 std::vector<CInv> nf{o.inv};
                 net->SendMsg(p, NetMsgType::NOTFOUND, nf);
                 TickPeer(p);
+                ctx.evf("peer#%d notfound (honest phase)", p.idx);
             }
         }
     }
@@ -623,15 +627,25 @@ struct Sim {
     }
 
     // ------------------------------------------------------------------------------------------ after the last fault
-    /** Advance the clock by `budget` seconds in small steps; every peer is honest now. Stops early when `done()`. */
+    /** Answer every open request (fresh peer: the transaction; old peers: notfound) until the node asks nothing more at this instant. */
+    void AnswerAll()
+    {
+        for (int round = 0; round < 4 * MAX_PEERS; ++round) {
+            bool any = false;
+            for (auto& p : net->peers)
+                if (!p->finalized && !ps[p->idx].open.empty()) { any = true; AnswerHonestly(*p, "honest getdata answer"); }
+            SettleAll();
+            if (!any) break;
+        }
+    }
+    /** Advance the clock by `budget` seconds in small steps, nobody misbehaves any more. Stops early when `done()`. */
     template <typename F>
     void RunHonest(int64_t budget, F done)
     {
         static const int64_t steps[] = {1, 1, 1, 1, 1, 1, 2, 2, 5, 5, 10, 10, 10, 10, 10};
         int64_t used = 0;
         for (size_t i = 0; used < budget; ++i) {
-            for (auto& p : net->peers) if (!p->finalized) AnswerHonestly(*p, "honest getdata answer");
-            SettleAll();
+            AnswerAll();
             if (done()) return;
             int64_t dt = std::min<int64_t>(steps[std::min<size_t>(i, std::size(steps) - 1)], budget - used);
             used += dt;
@@ -639,8 +653,7 @@ struct Sim {
             SetMockTime(std::chrono::seconds{ms.cs.now});
             SettleAll(1);
         }
-        for (auto& p : net->peers) if (!p->finalized) AnswerHonestly(*p, "honest getdata answer");
-        SettleAll();
+        AnswerAll();
     }
 
     void Epilogue()
@@ -652,6 +665,7 @@ struct Sim {
         AddPeer(ctx.knob("epi_out", 0) != 0);
         SimPeer& H = *net->peers.back();
         if (H.finalized) return;
+        honest_idx = H.idx;
         const int mode = (int)ctx.knob("epi_mode", 0);
         stripped_orphan_at_epilogue.clear();
         for (auto& g : G) stripped_orphan_at_epilogue.push_back(InOrphanage(Wtxid::FromUint256(g.txid.ToUint256())));
@@ -715,11 +729,12 @@ struct Sim {
                 if (all()) {
                     if (hops > 1) ctx.probe("epilogue_parents_fetched_by_txid");
                 } else {
-                    // walk down from the announced child: the first missing transaction that was never asked for is where the chain broke
+                    // walk down from the announced child: the first missing transaction that the honest peer was never asked for (it answers
+                    // every request at once, the old peers answer notfound at once) is where the chain broke
                     int brk = -1;
                     for (int j = k; j >= 0; --j) {
                         if (settled(j)) continue;
-                        if (G[j].req_epilogue == 0) { brk = j; break; }
+                        if (!G[j].delivered_epilogue) { brk = j; break; }
                     }
                     if (brk >= 0 && brk < k && stripped_orphan_at_epilogue[brk]) {
                         // A scenario of its own (own class, so that it can be told apart from every other way of losing the request): when the
@@ -727,7 +742,7 @@ struct Sim {
                         // own parent was unknown, and G[brk] was to be fetched by txid as the missing parent of its child. Whether G[brk] is
                         // valid is established by what follows: everything is announced by wtxid and has to be accepted iff the twin accepts it.
                         char buf[600];
-                        snprintf(buf, sizeof buf, "parent-fetch-by-txid: an honest wtxid-relay peer delivered the child of the genuine G%d, which is unknown to the node (and valid: it was accepted once announced by wtxid), but the node never asked any peer for G%d within %lds per hop; a witness-stripped copy of G%d (wtxid == txid) was sitting in the orphanage when the child arrived", brk, brk, (long)kRequestBoundS, brk);
+                        snprintf(buf, sizeof buf, "parent-fetch-by-txid: an honest wtxid-relay peer delivered the child of the genuine G%d, which is unknown to the node (and valid: it was accepted once announced by wtxid), but the node never asked the honest peer for G%d (by txid, as the missing parent) within %lds per hop; a witness-stripped copy of G%d (wtxid == txid) was sitting in the orphanage when the child arrived", brk, brk, (long)kRequestBoundS, brk);
                         known_finding = buf;
                         ctx.probe("stripped_orphan_copy_suppressed_parent_fetch");
                         announce_each();
@@ -742,7 +757,7 @@ struct Sim {
                             valid = r.m_result_type == MempoolAcceptResult::ResultType::VALID;
                         }
                         if (valid)
-                            ctx.failf("genuine-tx-not-requested", "%s: the node never sent a getdata for the genuine G%d (valid per the twin; copies processed before, bit per kind: %s) within %lds per hop of simulated time after the last fault, although an honest peer %s", brk == k ? "announce-by-wtxid" : "parent-fetch-by-txid", brk, Masks().c_str(), (long)kRequestBoundS, brk == k ? "announced it" : "delivered its child");
+                            ctx.failf("genuine-tx-not-requested", "%s: the node never asked the honest peer (the only one that has it; the others answer notfound) for the genuine G%d (valid per the twin; copies processed before, bit per kind: %s) within %lds per hop of simulated time after the last fault, although that peer %s", brk == k ? "announce-by-wtxid" : "parent-fetch-by-txid", brk, Masks().c_str(), (long)kRequestBoundS, brk == k ? "announced it" : "delivered its child");
                         ctx.probe("epilogue_genuine_invalid_for_twin_too");
                         return;
                     } else {
@@ -810,7 +825,7 @@ Engine MakeEngine()
     e.describe = Describe;
     e.chunk = 1;
     e.quick_runs = 800;
-    e.thorough_runs = 24000;
+    e.thorough_runs = 14000;
     e.quick_budget_s = 50;
     e.thorough_budget_s = 900;
     e.rule = "each run = one real node with 2-5 (up to 7) scripted wtxid-relay peers (inbound or outbound), a chain of 1-3 valid segwit transactions G0->G1->G2 built on deep confirmed P2WPKH/P2TR/P2WSH/P2SH-P2WPKH coins, "
@@ -819,14 +834,16 @@ Engine MakeEngine()
              "clock steps of 1-125 s (past GETDATA_TX_INTERVAL), msghand ticks, blocks (empty or confirming genuine txs) and reorgs with empty blocks (both reset the reject filters), peers disconnecting (also mid-request) and connecting; "
              "copies of a child arrive while its parent is withheld (orphan copies). Oracle: (1) whenever a genuine tx is delivered and is not confirmed: it is in the mempool iff a twin node (same blocks, genuine txs only) accepts it; "
              "if the twin says missing-inputs the node must hold it as an orphan; the twin's mempool must equal the node's at every event; a copy is never what sits in the mempool. (2) after the last fault a fresh honest peer announces "
-             "the missing genuine txs by wtxid (mode 0: each, parents first; mode 1: only the deepest child, ancestors have to be fetched by txid through orphan resolution): a getdata naming each must be seen within 66 s of simulated "
-             "time per hop (60 s request timeout + 2+2+2 s delays) with all peers answering honestly, and at the end every genuine tx is confirmed or in the mempool. "
+             "the missing genuine txs by wtxid (mode 0: each, parents first; mode 1: only the deepest child, ancestors have to be fetched by txid through orphan resolution) and serves every request at once, the old peers leave their earlier "
+             "requests unanswered and answer new ones with notfound at once: the node must ask the fresh peer for each missing genuine tx within 66 s of simulated time per hop (60 s request timeout + 2+2+2 s delays), "
+             "and at the end every genuine tx is confirmed or in the mempool. The one scenario in which the unchanged tree does not ask (a witness-stripped copy of the parent held as an orphan when its child arrives) has its own violation "
+             "class, is raised only after every other clause of the run has been evaluated, and is a recorded known finding. "
              "non-trivial = the node processed at least one copy of a genuine tx before that tx was delivered/fetched; distinct = fingerprints of (mempool/confirmed/copies-processed/requested per genuine tx, open requests and liveness per peer, orphanage size, tip).";
     e.real_components = {"PeerManagerImpl (inv/tx/notfound/getdata handling, orphan reconsideration)", "TxDownloadManagerImpl (reject filters, AlreadyHaveTx, MempoolRejectedTx, orphan resolution)", "TxRequestTracker, TxOrphanage", "MemPoolAccept (PreChecks, PolicyScriptChecks incl. TX_WITNESS_STRIPPED detection), CTxMemPool", "validation (blocks, reorgs, mempool update on reorg)", "V1 transport framing of incoming messages"};
     e.stub_components = {"sockets (outgoing messages captured through the CaptureMessage seam)", "net/msghand threads (their loop bodies are simulator events)", "remote peers (scripted)", "clock (SetMockTime)", "twin node = second SimNode without P2P layer"};
     e.assumptions = {"'valid' is decided by the twin node at the moment of the check; the twin's mempool is kept equal to the node's for the genuine transactions",
                      "a genuine transaction whose parent is unknown counts as 'validated' if it is held in the orphanage afterwards (observed through PeerManager::GetOrphanTransactions)",
-                     "bounded liveness is checked only in the final honest phase, in simulated seconds; mode 1 is strict only when no genuine transaction is already an orphan at that point",
+                     "bounded liveness is checked only in the final honest phase, in simulated seconds; mode 1 is strict only when no genuine transaction is already an orphan at that point (a genuine orphan whose announcer stays silent about the parent stalls orphan resolution without any copy being involved)",
                      "all copies are invalid or non-standard by construction; a copy with a different VALID witness is outside this engine (it would legitimately occupy the txid)"};
     e.expected_probes = {"copy_processed_bad-signature", "copy_processed_stripped", "copy_processed_padded-nonstandard", "copy_processed_oversized", "copy_processed_annex", "copy_kept_as_orphan", "stripped_copy_kept_as_orphan",
                          "genuine_accepted_after_copy_was_processed", "genuine_accepted_after_copy_without_filter_reset", "genuine_kept_as_orphan_after_copy", "genuine_requested_after_copy_was_processed",
